@@ -305,5 +305,7 @@ def c094(ctx):
     ctx.declare(R + "b", "bytes read from a file are never indexed beyond the length a dominating comparison established for that same buffer")
     nb, pb = K.bounds_audit(ctx, R + "b", fns, BOUNDS_EXC, elem=r"^u8$")
     ctx.floor(R + "b", "byte-buffer index / slice sites on read paths", nb, 8)
+    from .C09_exc import OVERFLOW_EXC
+    K.overflow_audit(ctx, R + "b", fns, OVERFLOW_EXC)
     ctx.instances.setdefault(R + "p", {"why": "", "sites": [], "matched": 0, "failed": 0})["why"] = \
         "explicit-panic audit over the same reach set (each exception names one construct in one function with its reason)"
